@@ -7,7 +7,7 @@ import itertools
 from harness.common import dec_res, enc_val, ensure_impl_on_path, known_predicate, run_impl, Unencodable
 
 GEN_MODULES = ['excelutil', 'text']
-EXTRA_TARGETS = ('Proofs/C20.vo',)
+EXTRA_TARGETS = ('Proofs/C20.vo', 'Proofs/C20TextTop.vo')
 ASSUMPTIONS = []
 
 ALPHA = 'aB é\U0001F600'          # repeats, upper/lower, a space, 2-byte and 4-byte UTF-8
@@ -28,6 +28,18 @@ def _kp_text_half_even(case):
 def _kp_text_keyerror(case):
     return case['call'] == 'text' and case.get('oracle') == 'raises-KeyError' \
         and isinstance(case['args'][1], str) and '..' in case['args'][1]
+
+
+# Registered but INERT (no entry in known_findings.json; the oracle clause that would raise them only counts
+# them in the histogram, see text_part): where pycel's TEXT differs from Excel inside the 0 # , . % grammar.
+@known_predicate('C20-text-pad-not-grouped')
+def _kp_text_pad_not_grouped(case):
+    return case['call'] == 'text' and case.get('oracle') == 'text-pad-not-grouped'
+
+
+@known_predicate('C20-text-scaling-comma')
+def _kp_text_scaling_comma(case):
+    return case['call'] == 'text' and case.get('oracle') == 'text-scaling-comma'
 
 
 def strings_upto(n, alpha=ALPHA):
@@ -87,8 +99,11 @@ def run(ctx):
         "CONCAT/TEXT through function_helpers.apply_meta: every string up to length 4 (FIND/SUBSTITUTE "
         "quick tier: 3, with every pattern up to length 2) over the 5-symbol alphabet 'a','B',' ','é','😀' x every n, k in "
         "-1..10, PRNG-sampled strings of length 5..8, and number/boolean/blank/error/numeric-text "
-        "arguments in every parameter position; TEXT: numbers k/10^j and dyadics x formats of the "
-        "grammar [#,##]0[.0#][%]; a case is non-trivial when it is a distinct (function, arguments) pair")
+        "arguments in every parameter position; TEXT: numbers k/10^j and dyadics x (formats of the "
+        "grammar [#,##]0[.0#][%], random texts over 0 # , . %, and formats drawn from the grammar of "
+        "Proofs/C20TextSpec.v: up to 6 integer placeholders/commas, optional '.' with up to 4 fraction "
+        "placeholders, 0-2 '%'), each also evaluated by the declarative text_spec (Python and extracted Coq); "
+        "a case is non-trivial when it is a distinct (function, arguments) pair")
 
     S4 = list(strings_upto(4))
     S3 = [s for s in S4 if len(s) <= 3]
@@ -433,6 +448,144 @@ def text_expected(x, ip, fp, pct, as_implemented=False):
     return out + pct
 
 
+# ---- the grammar and the declarative meaning of Proofs/C20TextSpec.v, re-implemented (theorems C20_text_halfeven /
+# C20_text_nontie / C20_text_parsed prove that Model/TextFormat.v computes exactly this for every x and every format
+# of the grammar; the harness compares this re-implementation with the extracted Coq [text_spec] and with pycel).
+def parse_fmt(f):
+    """f ::= int ['.' frac] '%'*; int over 0 # , with every ',' directly after a placeholder; frac over 0 #.
+    Returns (int, has_dot, frac, percents) or None."""
+    body = f.rstrip('%')
+    k = len(f) - len(body)
+    ip, dot, fp = body.partition('.')
+    if not set(ip) <= set('0#,') or not set(fp) <= set('0#'):
+        return None
+    if ip.startswith(',') or ',,' in ip or (not dot and not ip):
+        return None
+    return ip, bool(dot), fp, k
+
+
+def group3(s):
+    out = []
+    for i, ch in enumerate(reversed(s)):
+        if i and i % 3 == 0:
+            out.append(',')
+        out.append(ch)
+    return ''.join(reversed(out))
+
+
+def has_thousands(ip):
+    return any(ip[i] == ',' and ip[i + 1] in '0#' for i in range(len(ip) - 1))
+
+
+def text_spec(x, fm, mode, excel_padding=False):
+    """text_spec of C20TextSpec.v for the exact number x (a Fraction); mode 'away' | 'even'.
+    Returns (text, is_tie).  excel_padding=True: the padding zeros take part in the grouping (what Excel shows
+    for "0,000"; pycel does not) and a ',' that is not followed by a placeholder scales by 1000."""
+    ip, dot, fp, k = fm
+    d = len(fp)
+    q = abs(x) * 100 ** k * 10 ** d
+    if excel_padding:
+        i = len(ip)
+        while i and ip[i - 1] == ',':
+            q /= 1000
+            i -= 1
+    fl = q.numerator // q.denominator
+    r = q - fl
+    half = fractions.Fraction(1, 2)
+    tie = r == half
+    if r < half:
+        n = fl
+    elif r > half or mode == 'away' or fl % 2:
+        n = fl + 1
+    else:
+        n = fl
+    whole, rest = divmod(n, 10 ** d)
+    ds = str(whole) if whole else ''
+    phs = [c for c in ip if c in '0#']
+    lead = phs[:max(0, len(phs) - len(ds))]
+    pad = ''.join(c for c in lead if c == '0')
+    if has_thousands(ip):
+        body = group3(pad + ds) if excel_padding else pad + group3(ds)
+    else:
+        body = pad + ds
+    fd = str(rest).zfill(d).rstrip('0')
+    fill = ''.join(c for c in fp[len(fd):] if c == '0')
+    out = ('-' if x < 0 else '') + body
+    if dot:
+        out += '.' + fd + fill
+    return out + '%' * k, tie
+
+
+def rand_grammar_format(rng):
+    n = rng.randrange(0, 7)
+    ip = ''
+    for _ in range(n):
+        ip += rng.choice('0#0#0#,') if ip and ip[-1] != ',' else rng.choice('0#')
+    dot = rng.random() < 0.6 or not ip
+    fp = ''.join(rng.choice('0#') for _ in range(rng.randrange(0, 5))) if dot else ''
+    return ip + ('.' + fp if dot else '') + '%' * rng.choice((0, 0, 0, 1, 1, 2))
+
+
+def spec_stream(ctx, calls, impl):
+    """Oracle stream of the TEXT theorems.  For every generated (x, f) with f in the grammar:
+    (1) the Python text_spec above = the extracted Coq [text_spec] (both modes) and agrees on 'is a tie', and the
+        Python parse_fmt accepts exactly the texts the Coq parse_fmt accepts;
+    (2) pycel = text_spec(half-away) of the decimal the user wrote whenever that decimal is not a rounding tie at the
+        requested digits (theorem C20_text_nontie on the implementation) -- the ties are the known finding
+        C20-text-half-even and are left to the older oracle below;
+    (3) where Excel differs from text_spec inside the grammar (padding zeros under grouping, scaling commas) the
+        case is only counted (candidate findings, predicates registered inert above)."""
+    import decimal
+    H = ctx.histogram
+    parsed = [parse_fmt(f) for _x, f, *_ in calls]
+    coq = [None] * (2 * len(calls))
+    if ctx.model:
+        cap = 150000                  # stream (1) on every call of the quick tier, on a PRNG sample of the thorough one
+        idx = list(range(len(calls))) if len(calls) <= cap else sorted(ctx.rng.sample(range(len(calls)), cap))
+        batch = []
+        for j in idx:
+            x, f = calls[j][0], calls[j][1]
+            for mode in (0, 1):
+                batch.append(('text_spec', [enc_val(mode), enc_val(x), enc_val(f)]))
+        for n, r in enumerate(ctx.model.batch(batch)):
+            coq[2 * idx[n // 2] + n % 2] = dec_res(r)
+    for j, ((x, f, *_), fm, i) in enumerate(zip(calls, parsed, impl)):
+        case = dict(call='text', args=[x, f])
+        exact = fractions.Fraction(0 if x is None else x)
+        for mode, name in ((0, 'even'), (1, 'away')):
+            c = coq[2 * j + mode]
+            if c is None:
+                continue
+            if fm is None:
+                if c != ('raise', 'Unmodelled'):
+                    ctx.divergence(dict(case, oracle='spec-grammar'), None, c,
+                                   'Python parse_fmt rejects what Coq parse_fmt accepts')
+                continue
+            want = text_spec(exact, fm, name)
+            if c != ('ok', (want[0], want[1])):
+                ctx.divergence(dict(case, oracle='spec-' + name), want, c,
+                               'harness text_spec = Proofs/C20TextSpec.v text_spec (extracted)')
+        if fm is None:
+            continue
+        H['text:in-grammar'] = H.get('text:in-grammar', 0) + 1
+        if i[0] != 'ok' or x is None:
+            continue
+        dec = fractions.Fraction(decimal.Decimal(repr(x))) if isinstance(x, float) else fractions.Fraction(x)
+        want, tie = text_spec(dec, fm, 'away')
+        if tie:
+            H['text:decimal-tie'] = H.get('text:decimal-tie', 0) + 1
+            continue
+        H['text:spec-nontie-checked'] = H.get('text:spec-nontie-checked', 0) + 1
+        if i[1] != want:
+            ctx.violation(dict(case, oracle='text-spec-nontie'),
+                          "TEXT is not text_spec(half away from zero) on a number that is not a rounding tie",
+                          impl=i[1], expected=want)
+        excel, _ = text_spec(dec, fm, 'away', excel_padding=True)
+        if excel != want:
+            cls = 'text-scaling-comma' if fm[0].endswith(',') else 'text-pad-not-grouped'
+            H['text:candidate:' + cls] = H.get('text:candidate:' + cls, 0) + 1
+
+
 def text_part(ctx, F):
     thorough = ctx.tier == 'thorough'
     nums = [None, 0, 1, 5, 12, 123, 1234, 12345, 1234567, 2958465, 2958466, 40000000, -1, -12, -1234567,
@@ -454,6 +607,8 @@ def text_part(ctx, F):
         fmts.append((extra, None, None, None))
     for _ in range(ctx.n(60, 1500)):
         fmts.append(("".join(ctx.rng.choice('0#,.%00##') for _ in range(ctx.rng.randrange(1, 7))), None, None, None))
+    for _ in range(ctx.n(60, 600)):               # formats drawn from the grammar of C20TextSpec.v itself
+        fmts.append((rand_grammar_format(ctx.rng), None, None, None))
     calls = []
     for x in nums:
         for (f, ip, fp, pct) in (fmts if thorough or len(calls) < 400000 else fmts[:40]):
@@ -465,6 +620,7 @@ def text_part(ctx, F):
     if ctx.model:
         model = [dec_res(r) for r in ctx.model.batch(
             [('text', [enc_val(x), enc_val(f)]) for x, f, *_ in calls])]
+    spec_stream(ctx, calls, impl)
     for (x, f, ip, fp, pct), i, m in zip(calls, impl, model):
         case = dict(call='text', args=[x, f])
         ctx.count(('text', repr(x), f), kind='text:' + ('grammar' if ip in ORACLE_INT and fp in ORACLE_FRAC
